@@ -258,7 +258,7 @@ def G1_config_flow(ctx):
         cf = ctx.fn(c)
         for p in live(cf.paths()):
             for e in p.events:
-                if e.kind == 'call' and any(any(s[0] == 'upvar' and 'concurrency_level' in s[1] for s in subterms(a)) for a in e.d['args']):
+                if e.kind == 'call' and any(a[0] == 'upvar' and 'concurrency_level' in a[1] for a in e.d['args']):
                     cn = norm_callee(e.d['callee'])
                     if not (cn.endswith('Vec::with_capacity') or cn.endswith('::into_iter') or cn.endswith('::next')):
                         bad.append(e)
